@@ -18,6 +18,8 @@ git apply "$src/patch.diff" || { echo "RESULT patch does not apply to HEAD"; exi
 build_ok=true; go build ./... 2>/dev/null || build_ok=false
 mv "$wt/$pkg/zz_seed_demo_test.go" /tmp/zz_seed_demo_$$.go
 suite=$(go test -vet=off -count=1 ./... 2>&1 | grep -v "no test files" | grep -v "^ok" | head -5 | tr '\n' ' ')
+# the suite binds fixed ports (RCON 25575): a failure while another scratch tree runs it is retried once
+[ -n "$suite" ] && { sleep $((5 + RANDOM % 10)); suite=$(go test -vet=off -count=1 ./... 2>&1 | grep -v "no test files" | grep -v "^ok" | head -5 | tr '\n' ' '); }
 suite_ok=true; [ -n "$suite" ] && suite_ok=false
 mv /tmp/zz_seed_demo_$$.go "$wt/$pkg/zz_seed_demo_test.go"
 mut_demo=$(go test -vet=off -count=1 -run SeedDemo "$pkg" 2>&1 | tail -4 | tr '\n' ' ')
